@@ -8,7 +8,7 @@ def run(chk):
     quick = chk.tier == "quick"
     chk.rule = ("an adversary endpoint with a valid identity connected to an honest network that also serves an honest peer: random / truncated-at-random-offset / "
                 "single-byte-mutated / huge-length-prefix requests on bidirectional streams followed by finish, reset, stop, abandon or nothing; unidirectional streams, "
-                "(finished, reset or left open), datagrams, abrupt close; well-formed requests with hostile header values incl. a systematic sweep of multi-byte characters straddling 13 byte offsets; honest RPCs interleaved; (T) the victim's manager / handler events are replayed on Shutdown.v (ShutdownTrace.trun), which must accept them and still be in its loop with the same peers; the decoders alone on every strict prefix and mutation are C07's runs; distinct = scenario; non-trivial = all")
+                "(finished, reset or left open), datagrams, abrupt close; well-formed requests with hostile header values incl. a systematic sweep of multi-byte characters straddling 13 byte offsets; the victim also calls the hostile peer, which answers with scripted bytes (valid with hostile header values incl. the same sweep, truncated, mutated, unknown status, absurd lengths, nothing; finished, reset or left open); honest RPCs interleaved; (T) the victim's manager / handler events are replayed on Shutdown.v (ShutdownTrace.trun), which must accept them and still be in its loop with the same peers; the decoders alone on every strict prefix and mutation are C07's runs; distinct = scenario; non-trivial = all")
     if not chk.prepare():
         return
     simnet.c06(chk)
